@@ -10,11 +10,12 @@
     expansion of a non-terminal leaf; the Dirichlet draw that accompanies an expansion of the
     root when root noise is on travels with the answer (`Answer.noise`);
   * the game-over test `Position.winner()` is the parameter `Cfg.outcome`
-    (`none` = game not over, `some w` = over with winner `w`, `some none` = draw), to be
-    instantiated with `Impl.winner` of Model/Winner.lean (C02);
+    (`none` = game not over, `some w` = over with winner `w`, `some none` = draw); the real engine's
+    is `realOutcome` (= `Impl.winner` of Model/Winner.lean, C02);
   * the move table of a size (`encoding.MOVES_BY_SIZE[size]`, what `decode_move` indexes) is the
-    parameter `Cfg.table`, to be instantiated with `Gen.allMovesForSize` (C03/C07).  No theorem of
-    C08/C09 depends on how ids are numbered.
+    parameter `Cfg.table`; the real engine's is `Gen.allMovesForSize` (C03/C07).  The generic
+    theorems of C08/C09 do not depend on how ids are numbered; `realCfg` fixes both parameters and
+    the `…_real` corollaries are stated for it.
 
   Search statistics and priors are `Rat` (DESIGN.md section 3).  `Node.ev` is a ghost field: the
   evaluator answer the node was expanded with (the Python object does not keep it; the harness
@@ -24,6 +25,8 @@
 -/
 import TakVerif.Model.Core
 import TakVerif.Model.Move
+import TakVerif.Model.Winner
+import TakVerif.Model.Gen
 
 namespace Tak
 namespace Tree
@@ -62,6 +65,19 @@ structure Cfg where
   outcome : Pos → Option (Option Color)
   /-- `encoding.MOVES_BY_SIZE[size]` -/
   table : Nat → List Move
+
+/-- `winner, why = position.winner()` as `populate` reads it: the game is over iff a reason is
+    given (`why is not None`); the winner may then be `None` (a draw) -/
+def realOutcome (p : Pos) : Option (Option Color) :=
+  match Impl.winner p with
+  | (_, none) => none
+  | (w, some _) => some w
+
+/-- the configuration of the real engine: adjudication by `Impl.winner` (Model/Winner.lean, proved
+    equal to the rule book's `Spec.outcome` in Props/C02.lean), move ids decoded by the real table
+    `Gen.allMovesForSize` (Props/C03.lean, Props/C07.lean) -/
+def realCfg (cutoff : Rat) (noise : Bool) (mix : Rat) : Cfg :=
+  { cutoff := cutoff, noise := noise, mix := mix, outcome := realOutcome, table := Gen.allMovesForSize }
 
 /-- `Node(position=p, move=m)` -/
 def fresh (p : Pos) (m : Option Move) : Node :=
